@@ -272,7 +272,7 @@ class Check:
         if not requests:
             return []
         data = "\n".join(cbor2.dumps(r).hex() for r in requests) + "\n"
-        rc, out = sh(f"ulimit -s unlimited 2>/dev/null; exec {self.driver}", input=data, timeout=3600)
+        rc, out = sh(f"ulimit -s unlimited 2>/dev/null; ulimit -v 8000000 2>/dev/null; exec {self.driver}", input=data, timeout=1800)
         lines = out.strip().split("\n")
         if len(lines) != len(requests):
             raise RuntimeError(f"model driver returned {len(lines)} lines for {len(requests)} requests: {out[-300:]}")
